@@ -100,7 +100,9 @@ def scenario(draw):
                            'flag': draw(st.sampled_from(['poll', 'poll', 'nopoll', 'handler', 'common', 'noread']))})
         mods.append({'pollinterval': draw(st.sampled_from([0.1, 0.5, 1.0, 5.0, 30.0])), 'slowinterval': draw(st.sampled_from([0.1, 1.0, 5.0, 15.0, 60.0])),
                      'dv': draw(st.sampled_from([0.0, 0.05, 1.0, 3.0])), 'ds': draw(st.sampled_from([0.0, 0.05, 0.5])),
-                     'vscript': draw(st.sampled_from(SCRIPTS)), 'vexc': draw(st.sampled_from(EXCS)), 'params': params})
+                     'vscript': draw(st.sampled_from(SCRIPTS)), 'vexc': draw(st.sampled_from(EXCS)), 'params': params,
+                     # the additional reads a module does once at start-up (initialReads) fail
+                     'initial_reads': draw(st.sampled_from([None] * 6 + EXCS))})
     events = []
     for _ in range(draw(st.integers(0, 3))):
         events.append({'at': draw(st.sampled_from([0.5, 3.0, 20.0, 100.0, 333.3])), 'mod': draw(st.integers(0, len(mods) - 1)),
@@ -186,6 +188,12 @@ def build(case, clock, log):
             self.read_value()
             self.read_status()
         attrs['doPoll'] = doPoll
+        if ms.get('initial_reads'):
+            def initialReads(self, exc=ms['initial_reads'], name=name):
+                log.append((clock.t, name, 'initialReads', 'poller'))
+                cls_ = getattr(ferr, exc, None) or getattr(builtins, exc)
+                raise cls_('scripted failure of the initial reads')
+            attrs['initialReads'] = initialReads
         cls = type(f'C{i}', (Readable,), attrs)
         m = cls(name, L(), {'description': '', 'pollinterval': {'value': ms['pollinterval']}, 'slowinterval': ms['slowinterval']}, srv)
         m.earlyInit()
